@@ -247,6 +247,88 @@ def check_out_guard(rep):
                      key='M-OUT-GUARD-L0|%s|%#x' % (sym, i.addr - f.entry), sample='%s: %d-byte store after cmp with m_out_end (%d guard edges)' % (sym, width, g) if not isinstance(g, str) and sym.endswith('_04') else None)
 
 
+def check_isfull_c(rep, mod):
+    """portable encoders: the 64-bit bit buffer is flushed by write_bits() / flush_bits() with an 8-byte store at m_out_buf; set_buf() keeps 8 bytes in
+    reserve behind m_out_end, enough for exactly one such store after is_full() said no."""
+    R = rep.rule('R-ISFULL-C', 'portable match finders and the portable ICF encoder: every call that flushes the bit buffer to the output (write_bits, flush_bits) is preceded on every path by the "not full" edge of an '
+                 'is_full() test with no other flushing call in between (one 8-byte store per test); write_bits_unsafe only accumulates', floor=3, unit='functions')
+    flushers = {'write_bits', 'flush_bits', 'write_bits_flush', 'flush'}
+    for fn in ('isal_deflate_body_base', 'isal_deflate_finish_base', 'encode_deflate_icf_base'):
+        f = mod.funcs.get(fn)
+        if f is None:
+            raise AnalysisBroken(fn + ' not found')
+        R.instance()
+        sites = [i for i in f.all_insns() if i.op == 'call' and base_name(i.callee) in flushers]
+        tests = [i for i in f.all_insns() if i.op == 'call' and base_name(i.callee) == 'is_full']
+        if not sites or not tests:
+            raise AnalysisBroken('%s: expected flushing calls and is_full tests (found %d/%d)' % (fn, len(sites), len(tests)))
+        # pass edges: (block, successor) where the branch condition derives from an is_full result and the successor is the "== 0" side
+        passedge = set()
+
+        def notfull_when(v, depth=0):
+            """True / False: the i1 value v being that constant implies is_full() returned 0; None: no such implication"""
+            d = f.defs.get(v)
+            if d is None or depth > 6:
+                return None
+            if d.op == 'icmp' and d.ops[1] == '0' and d.extra['pred'] in ('ne', 'eq'):
+                src = f.defs.get(irrules._strip(f, d.ops[0]))
+                if src is not None and src.op == 'call' and base_name(src.callee) == 'is_full':
+                    return d.extra['pred'] == 'eq'        # (is_full == 0) is true  <=> not full
+                return None
+            if d.op == 'xor' and 'true' in d.ops:
+                other = [o for o in d.ops if o != 'true'][0]
+                r = notfull_when(other, depth + 1)
+                return None if r is None else (not r)
+            if d.op in ('zext', 'trunc', 'freeze'):
+                return notfull_when(d.ops[0], depth + 1)
+            if d.op == 'phi':
+                # short-circuit &&: every other incoming value is the constant false, so "true" can only come from the one computed operand
+                nonconst = [v2 for v2, _ in d.extra['incoming'] if v2 not in ('true', 'false')]
+                consts = {v2 for v2, _ in d.extra['incoming'] if v2 in ('true', 'false')}
+                if len(nonconst) == 1 and consts <= {'false'}:
+                    r = notfull_when(nonconst[0], depth + 1)
+                    return True if r is True else None
+                return None
+            return None
+        for b in f.order:
+            t = f.blocks[b].insns[-1]
+            if t.op != 'br' or not t.extra.get('cond'):
+                continue
+            r = notfull_when(t.extra['cond'])
+            if r is None:
+                continue
+            tt, tf = t.extra['targets']
+            passedge.add((b, tt if r else tf))
+        for s_ in sites:
+            problem = None
+            seen = set()
+            work = [(s_.block, s_.idx)]
+            while work and problem is None:
+                b, upto = work.pop()
+                hit = None
+                for j in reversed(f.blocks[b].insns[:upto]):
+                    if j.op == 'call' and base_name(j.callee) in flushers:
+                        hit = j
+                        break
+                if hit is not None:
+                    problem = 'another flush (%s at %s) reaches it without an is_full() test in between' % (base_name(hit.callee), mod.where(f, hit))
+                    break
+                if not f.blocks[b].preds:
+                    problem = 'it is reachable from the function entry without an is_full() test'
+                    break
+                for p_ in f.blocks[b].preds:
+                    if (p_, b) in passedge or (p_, b) in seen:
+                        continue
+                    seen.add((p_, b))
+                    work.append((p_, len(f.blocks[p_].insns)))
+            R.check(problem is None, mod.where(f, s_), '%s: %s flushes the bit buffer to the output, but %s: the 8-byte store can land beyond the reserve behind m_out_end' % (fn, base_name(s_.callee), problem),
+                    key='R-ISFULL-C|%s|%d' % (fn, sites.index(s_)), sample='%s: %d flushes, each after its own is_full() test' % (fn, len(sites)))
+
+
+def base_name(n):
+    return re.sub(r'\.\d+$', '', n)
+
+
 def main(tier):
     rep = Report('C10', tier, level='other')
     rep.undecided = UNDECIDED
@@ -265,4 +347,5 @@ def main(tier):
     for c in CONFIGS:
         c01.check_wrapper_consts(rep, c)
     check_out_guard(rep)
+    check_isfull_c(rep, mod)
     return rep.finish()
